@@ -6,8 +6,9 @@ props = [json.loads(l) for l in open(os.path.join(V, "properties.jsonl"))]
 
 CLAIMED = {}
 fd = os.path.join(V, "checks", "manifest")
+READY = [l.strip() for l in open(os.path.join(fd, "READY")) if l.strip() and not l.startswith("#")]
 for fn in sorted(os.listdir(fd)):
-    if fn.endswith(".json"):
+    if fn.endswith(".json") and fn[:-5] in READY:      # only checks the lead has accepted
         CLAIMED[fn[:-5]] = json.load(open(os.path.join(fd, fn)))
 
 checks = []
